@@ -9,10 +9,10 @@ import (
 
 func init() {
 	register(&propDef{
-		ID:    "C17",
-		Level: "other",
+		ID:      "C17",
+		Level:   "other",
 		Explain: "Compression decision and typestate rules on the CFG of proxy/gzip: (D1) the gzip response writer is installed only on the acceptsGzip()==true edge, the gzip writer only on the isCompressable()==true edge; isCompressable returns false on the Content-Encoding != \"\" edge and otherwise the content-type regexp's verdict; acceptsGzip only returns false or Contains(Accept-Encoding, gzip); (H1) on the compress edge Del(Content-Length) and Set(Content-Encoding, gzip) both lie on every path to the underlying WriteHeader, no other path touches those headers, and the status code parameter is forwarded unchanged on all paths; (T1) decide-once: the writer field is stored only under writer == nil, the deciding method assigns it on every path of that edge, and every use of it is either under writer != nil or after the deciding call on the nil edge; (T2) pooled gzip.Writer typestate: Get -> Reset(underlying ResponseWriter) -> use -> Close -> Put, Close before Put and nothing after Put, and the handler defers the response writer's Close before serving; (W1) Write hands its argument unchanged to the decided writer and returns its results; (V1) Vary: Accept-Encoding is added before any branching. (T3) the pooled writer is returned at most once per response. Not decided: that compress/gzip round-trips the bytes (library behaviour).",
-		Run:   runC17,
+		Run:     runC17,
 		Trusted: []string{"compress/gzip.Writer produces a stream that decompresses to the bytes written", "sync.Pool hands an object to one user at a time"},
 		Mutants: []mutant{
 			{Name: "drop Del(Content-Length)", File: "proxy/gzip/gzip_handler.go", Old: "\t\t\tgrw.Header().Del(headerContentLength)\n", New: "", Expect: "C17.H1"},
